@@ -52,6 +52,12 @@ def _update_check(s):
             ('nonzero-diagonal', s.diag != 0)]
 
 
+def _row_done_check(s):
+    # at the end of a visit: a row with a non-zero diagonal entry HAS been updated (the store is not only correct where it happens,
+    # it happens for every sign of the diagonal); rsum/diag are the row sums by the inner invariant
+    return [('every-row-with-a-nonzero-diagonal-is-updated', Implies(s.diag != 0, s.x[s.i] * s.diag == s.b[s.i] - s.rsum))]
+
+
 gauss_seidel = Contract(
     F, 'gauss_seidel',
     params={'row_ptr': Arr('int', 1, elem_range=I32), 'col_indices': Arr('int', 1, elem_range=I32), 'data': Arr('real', 1),
@@ -71,7 +77,7 @@ gauss_seidel = Contract(
                                       ('len', s.x.len == s.old.x.len)],
                        dec=lambda s: s.g_m - s.g_t),
            1: LoopSpec(r'for jj in range\(start, end\)', inv=_inner_inv)},
-    checks=[(r'x\[i\] = \(b\[i\] - rsum\) / diag', _update_check)],
+    checks=[(r'x\[i\] = \(b\[i\] - rsum\) / diag', _update_check), (r'^\s*i \+= row_step', _row_done_check)],
     ensures=lambda s: [('len', s.x.len == s.old.x.len)],
     options={'timeout_ms': 60000},
     notes=['rows are visited in the order row_start, row_start+row_step, ... (g_t counts the visits); each visited row with a nonzero '
@@ -98,7 +104,7 @@ gauss_seidel_indexed = Contract(
                                       ('len', s.x.len == s.old.x.len)],
                        dec=lambda s: s.indices.len - s.g_t),
            1: LoopSpec(r'for jj in range\(start, end\)', inv=_inner_inv)},
-    checks=[(r'x\[i\] = \(b\[i\] - rsum\) / diag', _update_check)],
+    checks=[(r'x\[i\] = \(b\[i\] - rsum\) / diag', _update_check), (r'^\s*idx \+= Is', _row_done_check)],
     ensures=lambda s: [('len', s.x.len == s.old.x.len)],
     options={'timeout_ms': 60000},
 )
